@@ -58,3 +58,33 @@ Fixpoint chain_src (ls : list layer) (depth : nat) (o : Z) : lsrc :=
     | Parent o' => chain_src rest (S depth) o'
     end
   end.
+
+(* ---------- run-length form of a resolved read, for printing ---------- *)
+Inductive lseg : Type :=
+| LSZero (n : Z)
+| LSFile (depth : nat) (o n : Z)
+| LSData (depth : nat) (o n : Z)
+| LSInfl (depth : nat) (d k n : Z).
+
+Definition lseg_push (s : lsrc) (acc : list lseg) : list lseg :=
+  match s, acc with
+  | LZero, LSZero n :: r => LSZero (n + 1) :: r
+  | LFile d o, LSFile d' o' n :: r =>
+      if Nat.eqb d d' && (o' =? o + 1) then LSFile d o (n + 1) :: r else LSFile d o 1 :: acc
+  | LData d o, LSData d' o' n :: r =>
+      if Nat.eqb d d' && (o' =? o + 1) then LSData d o (n + 1) :: r else LSData d o 1 :: acc
+  | LInfl d a k, LSInfl d' a' k' n :: r =>
+      if Nat.eqb d d' && (a' =? a) && (k' =? k + 1) then LSInfl d a k (n + 1) :: r else LSInfl d a k 1 :: acc
+  | LZero, _ => LSZero 1 :: acc
+  | LFile d o, _ => LSFile d o 1 :: acc
+  | LData d o, _ => LSData d o 1 :: acc
+  | LInfl d a k, _ => LSInfl d a k 1 :: acc
+  end.
+
+Definition compress (l : list lsrc) : list lseg := fold_right lseg_push [] l.
+
+Definition chain_read_c (ls : list layer) (off n : Z) : res (list lseg) :=
+  match chain_read ls 0 off n with Ok r => Ok (compress r) | Err => Err | Fuel => Fuel end.
+
+Definition chain_spec_c (ls : list layer) (off n : Z) : list lseg :=
+  compress (map (chain_src ls 0) (zseq off n)).
